@@ -94,6 +94,17 @@ Theorem C06_close : forall v t evs s evs' s',
 Proof. exact close_final. Qed.
 Print Assumptions C06_close.
 
+(* The in-flight Enqueue (both versions): an Enqueue that got past the unlocked stopped test before
+   Close was called and whose locked body runs only once Close holds the running token (e.g.
+   after Close has returned): its item is put on the queue, and whatever happens afterwards no
+   loop goroutine exists and the item is never handed to the callback. *)
+Theorem C06_close_inflight_enqueue : forall v t evs s r p s1 evs' s',
+  run v (init_at t) evs = Some s -> close_holds_token s ->
+  step v s (EvEnq r p) = Some s1 -> run v s1 evs' = Some s' ->
+  In r (q s1) /\ loop s' = LNone /\ executed s' = executed s.
+Proof. exact close_inflight_enqueue. Qed.
+Print Assumptions C06_close_inflight_enqueue.
+
 (* Close, every further call (both versions).  A Close call that loses the CompareAndSwap only
    runs the deferred wg.Wait(); [EvClose2Ret] is that call returning.  At that moment no loop
    goroutine exists or is on its way out - so no callback is running - and none will run:
